@@ -121,7 +121,8 @@ static int expect_set(int kind, const SList *l, const char *name, int32 nt, int3
     if (!writable) return 0;
     if (sz < 0 || count <= 0 || count > MAX_ORDER || (long)count * sz > MAX_FIELD_SIZE) return 0;
     if (kind == K_SD && (nt & DFNT_NATIVE)) return 0;
-    if (kind == K_SD && strlen(name) > H4_MAX_NC_NAME) return 0;
+    if (kind == K_SD && strlen(name) > VSNAMELENMAX) return 0;   /* a vdata name cannot hold more: refused */
+    if (kind == K_GR && strlen(name) > FIELDNAMELENMAX) return 0; /* a vdata field name cannot hold more: refused */
     int i = sl_find(l, name);
     if (i >= 0) {
         if (kind == K_GR) return l->a[i].nt == nt;
@@ -324,7 +325,10 @@ static int sd_coordvar_of(int32 dimid)
     char dn[H4_MAX_NC_NAME + 8], vn[H4_MAX_NC_NAME + 8]; int32 sz, nt, na, rank, dsz[H4_MAX_VAR_DIMS];
     if (SDdiminfo(dimid, dn, &sz, &nt, &na) == FAIL) return -1;
     for (int v = 0; v < sd_nvars; v++)
-        if (SDgetinfo(sds(v), vn, &rank, dsz, &nt, &na) != FAIL && rank == 1 && !strcmp(vn, dn) && SDiscoordvar(sds(v))) return v;
+        if (SDgetinfo(sds(v), vn, &rank, dsz, &nt, &na) != FAIL && rank == 1 && !strcmp(vn, dn) && SDiscoordvar(sds(v))) {
+            char vdn[H4_MAX_NC_NAME + 8]; int32 s2, t2, a2; /* ... and defined on that dimension (an orphan left by a rename is not) */
+            if (SDdiminfo(SDgetdimid(sds(v), 0), vdn, &s2, &t2, &a2) != FAIL && !strcmp(vdn, dn)) return v;
+        }
     return -1;
 }
 static SList *sd_shadow(int kind, int idx, int32 id)
@@ -528,7 +532,7 @@ static void sd_op_range_fill(void)
         if (SDgetfillvalue(id, ob[0]) == FAIL) printf("fail\n"); else { phex(ob[0], (size_t)sz); printf("\n"); }
     }
 }
-static const char *DIMNAMES[] = {"x", "y", "lat", "lon", "time", "a", "ab"};
+static const char *DIMNAMES[] = {"x", "y", "lat", "lon", "time", "a", "fakeDimension"};
 static void sd_op_create(int rank32)
 {
     if (sd_nvars >= 8 || !sd_rdwr) return;
@@ -570,7 +574,7 @@ static void sd_op_dim(void)
         else if (q < 75 && sd_nvars > 0) strcpy(name, varnames[hk_range(0, sd_nvars - 1)]);
         else if (q < 80) { int n = (int)hk_range(255, 257); memset(name, 'd', (size_t)n); name[n] = 0; }
         else gen_name(name);
-        if (strncmp(name, "fakeDim", 7) == 0) name[0] = 'F';
+        if (strncmp(name, "fakeDim", 7) == 0 && name[7] && strspn(name + 7, "0123456789") == strlen(name + 7)) name[0] = 'F'; /* the library's own default names are not a user's to give */
         printf("T attr sd.setdimname %d ", s); pname(name);
         int rc = SDsetdimname(d, name);
         printf(" => %s\n", rc == FAIL ? "fail" : "ok");
@@ -603,7 +607,7 @@ static void sd_op_dim(void)
     }
     else if (r < 88) {
         char nm[H4_MAX_NC_NAME + 8]; int32 sz = 0, nt0, na;
-        if (SDdiminfo(d, nm, &sz, &nt0, &na) == FAIL || sz == 0 || !sd_rdwr) return; /* unlimited dimensions, read-only sessions: no scales here */
+        if (SDdiminfo(d, nm, &sz, &nt0, &na) == FAIL || sz == 0) return; /* unlimited dimensions: no scales here */
         int32 count = hk_chance(10) ? sz + 1 : sz;
         int32 nt = gen_nt(0);
         int foreign = 0; { int cv = sd_coordvar_of(d); if (cv >= 0) { char vn[H4_MAX_NC_NAME + 8]; int32 rk, vt, va, dsz[H4_MAX_VAR_DIMS];
@@ -613,7 +617,9 @@ static void sd_op_dim(void)
         int rc = SDsetdimscale(d, count, nt, valbuf);
         printf(" => %s\n", rc == FAIL ? "fail" : "ok");
         sd_emit_newvars();
-        if (rc != FAIL) { memset(outbuf, 0, 64); if (SDgetdimscale(d, outbuf) == FAIL || memcmp(outbuf, valbuf, (size_t)count * (size_t)ntsz(nt))) hk_fail("sd-dimscale-roundtrip", "-"); }
+        if (rc != FAIL && !sd_rdwr) hk_fail("sd-setattr-on-readonly-file-succeeds", "SDsetdimscale on a DFACC_READ file");
+        else if (rc == FAIL && !sd_rdwr) { }
+        else if (rc != FAIL) { memset(outbuf, 0, 64); if (SDgetdimscale(d, outbuf) == FAIL || memcmp(outbuf, valbuf, (size_t)count * (size_t)ntsz(nt))) hk_fail("sd-dimscale-roundtrip", "-"); }
         else if (count == sz && foreign) hk_fail("sd-dimscale-on-foreign-coordvar-fails", "the dimension carries the name of a coordinate variable left behind by a rename (other size)");
         else if (count == sz) hk_fail(nt0 != 0 ? "sd-dimscale-wider-type-fails" : "sd-setdimscale-unexpected-failure", "scale type %d -> %d (the data element of an existing scale never grows)", (int)nt0, (int)nt);
         sd_sync_dimshadow();
@@ -835,7 +841,7 @@ static void gr_ops(int n)
             printf("T attr gr.setattr %s ", gr_tok(o)); pname(name); printf(" %d %d ", (int)nt, (int)count); phex(valbuf, (size_t)vlen);
             int rc = GRsetattr(id, name, nt, count, valbuf);
             printf(" => %s\n", rc == FAIL ? "fail" : "ok");
-            int exp = expect_set(K_GR, l, name, nt, count, 1);
+            int exp = expect_set(K_GR, l, name, nt, count, gr_w);
             int li = o + 1;
             if (rc != FAIL) {
                 if (!exp) hk_fail("gr-setattr-unexpected-success", "nt %d count %d", (int)nt, (int)count);
@@ -846,7 +852,7 @@ static void gr_ops(int n)
                 if (l->n > 1) { int j = (int)hk_range(0, l->n - 1); if (strcmp(l->a[j].name, name)) gr_readback(id, l, l->a[j].name, "gr-frame"); }
             }
             else {
-                if (exp && gr_w) {
+                if (exp) {
                     if (pos >= 0 && pos < 4096 && gr_new_cached[li][pos] && vlen > 2048) hk_fail("gr-setattr-grow-of-unwritten-attr-fails", "attr created in this session with < 2048 bytes, re-set with %d bytes", vlen);
                     else hk_fail("gr-setattr-unexpected-failure", "nt %d count %d name %d chars", (int)nt, (int)count, (int)strlen(name));
                 }
@@ -999,8 +1005,9 @@ static void v_ops(int n)
             SList *l = &vd[o].f[okfx ? fx + 1 : 0];
             int q = (int)hk_range(0, 99);
             if (q < 50) {
-                char name[400]; gen_vname(name, l);
-                int pos = okfx ? sl_find(l, name) : -1;
+                char name[400], tname[400]; gen_vname(name, l);
+                strcpy(tname, name); tname[VSNAMELENMAX] = 0; /* the name as a vdata name holds it */
+                int pos = okfx ? sl_find(l, tname) : -1;
                 int32 nt = v_gen_nt(pos >= 0 ? l->a[pos].nt : 0, pos >= 0);
                 int sz = ntsz(nt);
                 int32 count = v_gen_count(sz, pos >= 0 ? l->a[pos].count : 0, pos >= 0);
@@ -1009,19 +1016,20 @@ static void v_ops(int n)
                 printf("T attr vs.setattr %d %d ", o, fx); pname(name); printf(" %d %d ", (int)nt, (int)count); phex(valbuf, (size_t)vlen);
                 int rc = VSsetattr(vd[o].id, fx, name, nt, count, valbuf);
                 printf(" => %s\n", rc == FAIL ? "fail" : "ok");
-                int exp = okfx && expect_set(K_VS, l, name, nt, count, vd[o].w);
+                int exp = okfx && expect_set(K_VS, l, tname, nt, count, vd[o].w);
                 if (rc != FAIL) {
                     if (!exp) hk_fail("vs-setattr-unexpected-success", "nt %d count %d fx %d", (int)nt, (int)count, fx);
-                    if (strlen(name) > VSNAMELENMAX) { hk_fail("vs-attr-name-truncated", "VSsetattr stored a %d-char name with %d chars", (int)strlen(name), VSNAMELENMAX); vs_resync(o, fx); continue; }
                     if (pos < 0) vd[o].total++;
-                    sl_set(l, pos, name, nt, count, valbuf, vlen);
-                    vs_readback(o, fx, name, "vs-get-after-set");
-                    if (l->n > 1) { int j = (int)hk_range(0, l->n - 1); if (strcmp(l->a[j].name, name)) vs_readback(o, fx, l->a[j].name, "vs-frame"); }
+                    sl_set(l, pos, tname, nt, count, valbuf, vlen);
+                    if (VSfindattr(vd[o].id, fx, name) != sl_find(l, tname) || VSfnattrs(vd[o].id, fx) != l->n) { /* a long name must be found again and never duplicated */
+                        hk_fail("vs-attr-name-truncated", "VSsetattr with a %d-char name: lookup by that name gives %d (want %d), %d attributes (want %d)", (int)strlen(name), VSfindattr(vd[o].id, fx, name), sl_find(l, tname), VSfnattrs(vd[o].id, fx), l->n); vs_resync(o, fx); continue; }
+                    vs_readback(o, fx, tname, "vs-get-after-set");
+                    if (l->n > 1) { int j = (int)hk_range(0, l->n - 1); if (strcmp(l->a[j].name, tname)) vs_readback(o, fx, l->a[j].name, "vs-frame"); }
                 }
                 else {
                     if (pos < 0 && okfx && vd[o].w) v_leaked = 1;
                     if (exp) hk_fail("vs-setattr-unexpected-failure", "nt %d count %d", (int)nt, (int)count);
-                    if (pos >= 0) vs_readback(o, fx, name, "vs-failed-set-changed-value");
+                    if (pos >= 0) vs_readback(o, fx, tname, "vs-failed-set-changed-value");
                 }
             }
             else if (q < 60) { printf("T attr vs.nattrs %d => %d\n", o, VSnattrs(vd[o].id)); }
@@ -1041,8 +1049,9 @@ static void v_ops(int n)
             SList *l = &vgp[o].a;
             int q = (int)hk_range(0, 99);
             if (q < 50) {
-                char name[400]; gen_vname(name, l);
-                int pos = sl_find(l, name);
+                char name[400], tname[400]; gen_vname(name, l);
+                strcpy(tname, name); tname[VSNAMELENMAX] = 0;
+                int pos = sl_find(l, tname);
                 int32 nt = v_gen_nt(pos >= 0 ? l->a[pos].nt : 0, pos >= 0);
                 int sz = ntsz(nt);
                 int32 count = v_gen_count(sz, pos >= 0 ? l->a[pos].count : 0, pos >= 0);
@@ -1051,18 +1060,19 @@ static void v_ops(int n)
                 printf("T attr vg.setattr %d ", o); pname(name); printf(" %d %d ", (int)nt, (int)count); phex(valbuf, (size_t)vlen);
                 int rc = Vsetattr(vgp[o].id, name, nt, count, valbuf);
                 printf(" => %s\n", rc == FAIL ? "fail" : "ok");
-                int exp = expect_set(K_VS, l, name, nt, count, vgp[o].w);
+                int exp = expect_set(K_VS, l, tname, nt, count, vgp[o].w);
                 if (rc != FAIL) {
                     if (!exp) hk_fail("vg-setattr-unexpected-success", "nt %d count %d", (int)nt, (int)count);
-                    if (strlen(name) > VSNAMELENMAX) { hk_fail("vs-attr-name-truncated", "Vsetattr stored a %d-char name with %d chars", (int)strlen(name), VSNAMELENMAX); vg_resync(o); continue; }
-                    sl_set(l, pos, name, nt, count, valbuf, vlen);
-                    vg_readback(o, name, "vg-get-after-set");
-                    if (l->n > 1) { int j = (int)hk_range(0, l->n - 1); if (strcmp(l->a[j].name, name)) vg_readback(o, l->a[j].name, "vg-frame"); }
+                    sl_set(l, pos, tname, nt, count, valbuf, vlen);
+                    if (Vfindattr(vgp[o].id, name) != sl_find(l, tname) || Vnattrs(vgp[o].id) != l->n) {
+                        hk_fail("vs-attr-name-truncated", "Vsetattr with a %d-char name: lookup by that name gives %d (want %d), %d attributes (want %d)", (int)strlen(name), Vfindattr(vgp[o].id, name), sl_find(l, tname), Vnattrs(vgp[o].id), l->n); vg_resync(o); continue; }
+                    vg_readback(o, tname, "vg-get-after-set");
+                    if (l->n > 1) { int j = (int)hk_range(0, l->n - 1); if (strcmp(l->a[j].name, tname)) vg_readback(o, l->a[j].name, "vg-frame"); }
                 }
                 else {
                     if (pos < 0 && vgp[o].w) v_leaked = 1;
                     if (exp) hk_fail("vg-setattr-unexpected-failure", "nt %d count %d", (int)nt, (int)count);
-                    if (pos >= 0) vg_readback(o, name, "vg-failed-set-changed-value");
+                    if (pos >= 0) vg_readback(o, tname, "vg-failed-set-changed-value");
                 }
             }
             else if (q < 62) printf("T attr vg.nattrs %d => %d\n", o, Vnattrs(vgp[o].id));
